@@ -26,13 +26,19 @@ def run(ctx):
                      "buffer ids are bound dynamically to spec slots",
                      "OpenFlow bytes built/decoded by harness/rawbytes.py (struct only)"]
   # 1. the property on the model
-  for n in ([0, 1, 2] if quick else [0, 1, 2, 3, 4]):
+  for n in ([0, 1, 2] if quick else [0, 1, 2, 3]):
     r = tlc.run("buffers", "MCBuffers", "MC_N%d.cfg" % n, tag="C18", timeout=3000)
     if r.violated:
       raise tlc.TLCError("spec violates its own property %s:\n%s" % (r.violated, r.error_trace))
     if n >= 1:
       tlc.require_coverage(r, ACTIONS, "Buffers N=%d" % n)
     ctx.add_model("Buffers N=%d" % n, r)
+  for c in (["MCL_N1", "MCL_N2p"] if quick else ["MCL_N1", "MCL_N2", "MCL_N3p"]):
+    r = tlc.run("buffers", "MCBuffers", c + ".cfg", tag="C18", timeout=3000)
+    if r.violated:
+      raise tlc.TLCError("spec violates its own property %s:\n%s" % (r.violated, r.error_trace))
+    tlc.require_coverage(r, ACTIONS + ["UseL", "PacketOutDataL", "RxL"], "Buffers with action lists " + c)
+    ctx.add_model("Buffers with action lists " + c, r)
   # 2. spec -> code: every transition of the abstract graph
   for n in ([0, 1, 2] if quick else [0, 1, 2, 3]):
     r = tlc.run("buffers", "MCBuffers", "EX_edges_N%d.cfg" % n, workers=1, coverage=False, tag="C18")
@@ -41,6 +47,14 @@ def run(ctx):
       raise tlc.TLCError("no behaviours exported for N=%d" % n)
     st = core.replay(ctx, ADAPTER, behs, params=dict(N=n))
     ctx.notes["replay_N%d" % n] = dict(behaviours=len(behs), **st)
+  # 2b. the same with action lists (one frame, two ports; the list steps are the point)
+  for n in ([1, 2] if quick else [1, 2, 3]):
+    r = tlc.run("buffers", "MCBuffers", "EX_lists_N%d.cfg" % n, workers=1, coverage=False, tag="C18", timeout=3000)
+    behs = [sort_sets(b) for b in r.tagged("T")]
+    if not behs:
+      raise tlc.TLCError("no list behaviours exported for N=%d" % n)
+    st = core.replay(ctx, ADAPTER, behs, params=dict(N=n, ports=2))
+    ctx.notes["replay_lists_N%d" % n] = dict(behaviours=len(behs), **st)
   # 3. long random behaviours
   num = 60 if quick else 1500
   r = tlc.run("buffers", "MCBuffers", "EX_sim.cfg" if quick else "EX_sim60.cfg", workers=1, coverage=False,
@@ -78,6 +92,11 @@ def run(ctx):
 
 
 ACTS = ["none", "out2", "flood", "inport", "all"]
+LISTS_FM = [["ctl"], ["ctl", "rw", "out2"], ["rw", "ctl", "flood"], ["ctl", "ctl"], ["out2", "rw", "all"],
+            ["inport", "ctl"]]
+LISTS_PO = [["ctl"], ["table"], ["ctl", "rw", "out2"], ["rw", "ctl", "flood"], ["table", "rw", "inport"],
+            ["rw", "table"], ["ctl", "ctl"], ["out2", "rw", "out2"], ["ctl", "table"]]
+PIN_KEYS = {"buf", "total", "dataLen", "inport", "reason", "tag", "k"}
 
 
 def drive(arg):
@@ -89,7 +108,16 @@ def drive(arg):
   tr = []
   for _ in range(n):
     k = rnd.random()
-    if k < 0.4:
+    if k < 0.3:
+      a = rnd.choice(["PacketOutL", "FlowModL", "PacketOutDataL", "RxL"])
+      if a in ("PacketOutL", "FlowModL"):
+        args = dict(buf=rnd.choice([0, 1, 2, 3, 4, 10]), acts=rnd.choice(LISTS_PO if a == "PacketOutL" else LISTS_FM))
+        nbuf = sum(1 for x in args["acts"] if x in ("ctl", "table"))
+        if args["buf"] in ad.bind.values() and nbuf > ad.N - len(ad.bind):
+          continue          # the spec leaves this step out (see Buffers!UseL)
+      else:
+        args = dict(f=rnd.choice("ab"), p=rnd.randint(1, 3), acts=rnd.choice(LISTS_PO if a == "PacketOutDataL" else LISTS_FM))
+    elif k < 0.5:
       a = "ToController"
       args = dict(f=rnd.choice("ab"), p=rnd.randint(1, 3), reason=rnd.choice(["miss", "action"]),
                   maxLen=rnd.choice([64, 65535]))
@@ -118,6 +146,11 @@ def drive(arg):
       wf = wf and set(obs) == {"buf", "total", "dataLen", "inport", "reason", "emitted"} and isinstance(obs["buf"], int)
       if not wf:
         obs = dict(buf=-1, total=-1, dataLen=-1, inport=-1, reason="bad", emitted=[])
+    elif a.endswith("L"):
+      wf = wf and set(obs) == {"emitted", "pins"} and all(set(x) == PIN_KEYS and isinstance(x["buf"], int)
+                                                         and isinstance(x["reason"], str) for x in obs["pins"])
+      if not wf:
+        obs = dict(emitted=[], pins=[])
     elif a != "SetConfig":
       wf = wf and set(obs) == {"emitted"}
       if not wf:
